@@ -132,6 +132,20 @@ def _env():
             y = torch.relu(self.blk(y))
             return self.blk(y)
 
+    class PitTwoHeads(nn.Module):
+        """Two network outputs returned as a LIST: both heads are tied to the output, whatever container holds them."""
+        shape = (3, 8)
+
+        def __init__(self):
+            super().__init__()
+            self.c0 = nn.Conv1d(3, 4, 3, padding='same')
+            self.head_a = nn.Conv1d(4, 3, 3, padding='same')
+            self.head_b = nn.Conv1d(4, 2, 1)
+
+        def forward(self, x):
+            f = torch.relu(self.c0(x))
+            return [self.head_a(f), self.head_b(f)]
+
     # masks that the METHOD must freeze by construction, stated from the architecture of the seed networks above
     # (independent of the masker class the conversion chose): widths tied to the network input / output, receptive
     # field and dilation of strided convolutions
@@ -140,6 +154,7 @@ def _env():
         "tcn_foldbn": {"alpha": ["seed.cin", "seed.fc"], "beta": ["seed.c2"], "gamma": ["seed.c2"]},
         "cnn2d": {"alpha": ["seed.fc2"]},
         "reuse": {"alpha": ["seed.blk"]},
+        "heads": {"alpha": ["seed.head_a", "seed.head_b"]},
     }
 
     class MpsCnn(nn.Module):
@@ -208,6 +223,8 @@ def _env():
                 net, shape = PitTcn(), PitTcn.shape
             elif variant == "reuse":
                 net, shape = PitReuse(), PitReuse.shape
+            elif variant == "heads":
+                net, shape = PitTwoHeads(), PitTwoHeads.shape
             else:
                 net, shape = repo_model(variant)
             m = PIT(net, input_shape=shape, train_features=init["features"], train_rf=init["rf"],
@@ -526,7 +543,9 @@ def _env():
             elif a == "fwdbwd":
                 m.train()
                 self.clear_grads()
-                loss = m(self.x).pow(2).mean() + m.cost
+                y = m(self.x)
+                ys = list(y.values()) if isinstance(y, dict) else (list(y) if isinstance(y, (list, tuple)) else [y])
+                loss = sum(t.pow(2).mean() for t in ys) + m.cost
                 if not loss.requires_grad:
                     return "noloss"
                 try:
@@ -976,7 +995,7 @@ def run(tier: str, seed: int, replay=None) -> int:
         #    mixed, a copy of the model somewhere) and the pairwise heterogeneity probes
         n_rand = 32 if tier == "quick" else 700
         rl = 14 if tier == "quick" else 30
-        rvars = {"pit": ["tcn", "cnn2d", "reuse"], "mps": ["layer", "channel", "channel0"], "sn": ["std"]}
+        rvars = {"pit": ["tcn", "cnn2d", "reuse", "heads"], "mps": ["layer", "channel", "channel0"], "sn": ["std"]}
         if tier != "quick":
             rvars["pit"] += ["tcn_foldbn", "tcresnet14"]
             rvars["mps"] += ["simplenn2d:channel"]
